@@ -504,6 +504,40 @@ fn inventory_case(run: &mut Run, idx: usize) {
     run.extra.insert("shared_state_inventory".into(), serde_json::json!({"repo": repo_root(), "sites": sites.len(), "not_in_allow_list": newsites, "no_longer_in_source": gone}));
 }
 
+/// `Command::output()` with a deadline.  A session whose threads deadlock never prints its result: that is a violation of
+/// "each thread obtains exactly the result a single-threaded run gives" (liveness half), reported as `c18:hang` with the
+/// session as replay - and the check itself must not wait for ever.  A normal session takes well under a second (quick
+/// tier) resp. a few seconds (60 KB texts); the deadline is two orders of magnitude above that.
+fn output_timeout(cmd: &mut Command, secs: u64) -> Result<std::process::Output, String> {
+    use std::io::Read;
+    use std::process::Stdio;
+    let mut ch = cmd.stdin(Stdio::null()).stdout(Stdio::piped()).stderr(Stdio::piped()).spawn().map_err(|e| format!("spawn: {}", e))?;
+    let mut so = ch.stdout.take().unwrap();
+    let mut se = ch.stderr.take().unwrap();
+    let t1 = std::thread::spawn(move || { let mut b = vec![]; let _ = so.read_to_end(&mut b); b });
+    let t2 = std::thread::spawn(move || { let mut b = vec![]; let _ = se.read_to_end(&mut b); b });
+    let start = std::time::Instant::now();
+    let status = loop {
+        match ch.try_wait() {
+            Ok(Some(st)) => break Some(st),
+            Ok(None) => {
+                if start.elapsed().as_secs() >= secs { let _ = ch.kill(); let _ = ch.wait(); break None; }
+                std::thread::sleep(std::time::Duration::from_millis(20));
+            }
+            Err(e) => return Err(format!("wait: {}", e)),
+        }
+    };
+    let stdout = t1.join().unwrap_or_default();
+    let stderr = t2.join().unwrap_or_default();
+    match status {
+        Some(status) => Ok(std::process::Output { status, stdout, stderr }),
+        None => Err(format!("HANG: no result after {} s (killed); stderr tail {}", secs, String::from_utf8_lossy(&stderr).chars().rev().take(200).collect::<String>().chars().rev().collect::<String>())),
+    }
+}
+
+/// deadline of one session process in seconds (`C18_SESSION_TIMEOUT` overrides)
+fn session_deadline() -> u64 { std::env::var("C18_SESSION_TIMEOUT").ok().and_then(|x| x.parse().ok()).unwrap_or(180) }
+
 pub fn run(run: &mut Run) {
     run.rule = "each session case = one child process: a random world (all plugin kinds, user dictionaries; every second session a \
 dictionary with EVERY bundled plugin - 3 input-text, 3 OOV, 2 path-rewrite, InhibitConnection - and texts that exercise each), N in {2,4,8,16} \
@@ -517,10 +551,19 @@ plus one inventory case (shared-state sites in the source vs c18_shared_state.tx
     let n = run.opts.count;
     for idx in 0..n {
         if !run.wants(idx) { continue; }
-        let outp = Command::new(&exe).arg("C18CHILD").arg("--seed").arg(run.opts.seed.to_string()).arg("--only").arg(idx.to_string()).arg("--out").arg(&run.opts.out).output();
+        let outp = output_timeout(Command::new(&exe).arg("C18CHILD").arg("--seed").arg(run.opts.seed.to_string()).arg("--only").arg(idx.to_string()).arg("--out").arg(&run.opts.out), session_deadline());
         let line_hdr = format!("C18 session idx={}", idx);
         let outp = match outp {
             Ok(o) => o,
+            Err(e) if e.starts_with("HANG") => {
+                // liveness: some thread never obtained its result (a deadlock on shared state); the single-threaded
+                // reference of the same session must terminate, otherwise the hang is not a matter of sharing
+                let alone = output_timeout(Command::new(&exe).env("C18_ALONE", "1").arg("C18CHILD").arg("--seed").arg(run.opts.seed.to_string()).arg("--only").arg(idx.to_string()).arg("--out").arg(&run.opts.out), session_deadline());
+                run.bump("outcome:session-hang");
+                let key = if alone.is_ok() { "c18:hang" } else { "c18:hang-also-alone" };
+                run.fail_with_line(idx, &line_hdr, key, &format!("the concurrent session never finished ({}); the same operations single-threaded in a fresh process {}", e, if alone.is_ok() { "finish" } else { "do not finish either" }));
+                continue;
+            }
             Err(e) => { run.fail_with_line(idx, &line_hdr, "c18:spawn", &format!("{}", e)); continue; }
         };
         let stdout = String::from_utf8_lossy(&outp.stdout).to_string();
@@ -560,7 +603,7 @@ plus one inventory case (shared-state sites in the source vs c18_shared_state.tx
         }
         // the reference of the theorems is a thread alone FROM THE ALL-UNINITIALISED STATE: the same operations, single-threaded,
         // in another fresh process (the in-process baseline above runs after the session, on initialised statics)
-        let alone = Command::new(&exe).env("C18_ALONE", "1").arg("C18CHILD").arg("--seed").arg(run.opts.seed.to_string()).arg("--only").arg(idx.to_string()).arg("--out").arg(&run.opts.out).output();
+        let alone = output_timeout(Command::new(&exe).env("C18_ALONE", "1").arg("C18CHILD").arg("--seed").arg(run.opts.seed.to_string()).arg("--only").arg(idx.to_string()).arg("--out").arg(&run.opts.out), session_deadline());
         let va: Option<serde_json::Value> = alone.ok().and_then(|o| String::from_utf8_lossy(&o.stdout).lines().rev().find_map(|l| serde_json::from_str(l).ok()));
         match va {
             Some(va) if va["res"] == v["res"] && va["reshash"] == v["reshash"] && va["fp_before"] == v["fp_before"] => run.bump("alone-process-baselines-equal"),
@@ -580,11 +623,12 @@ plus one inventory case (shared-state sites in the source vs c18_shared_state.tx
     if std::path::Path::new(&format!("{}/sudachipy/sudachipy.so", pkg)).exists() && run.opts.only.is_none() {
         let rounds = if run.opts.thorough { 6 } else { 2 };
         for r in 0..rounds {
-            let outp = Command::new("python3").arg(format!("{}/pyharness/run_threads.py", root)).arg(&pkg).arg((run.opts.seed + r as u64).to_string()).output();
+            let outp = output_timeout(Command::new("python3").arg(format!("{}/pyharness/run_threads.py", root)).arg(&pkg).arg((run.opts.seed + r as u64).to_string()), 4 * session_deadline());
             run.bump("python-thread-sessions");
             match outp {
                 Ok(o) if o.status.success() && String::from_utf8_lossy(&o.stdout).contains("\"ok\": true") => { run.bump("python-thread-sessions-ok"); }
                 Ok(o) => run.fail_with_line(n + r, &format!("C18 pythreads round={}", r), "c18:python-threads", &format!("status {:?}: {} {}", o.status.code(), String::from_utf8_lossy(&o.stdout).chars().take(400).collect::<String>(), String::from_utf8_lossy(&o.stderr).chars().rev().take(300).collect::<String>().chars().rev().collect::<String>())),
+                Err(e) if e.starts_with("HANG") => run.fail_with_line(n + r, &format!("C18 pythreads round={}", r), "c18:python-hang", &e),
                 Err(e) => run.fail_with_line(n + r, "C18 pythreads", "c18:python-spawn", &format!("{}", e)),
             }
         }
